@@ -62,6 +62,7 @@ fn main() {
         "prims-sweep-c05" => prims::cmd_sweep_c05(rest),
         "prims-sweep-c13" => prims::cmd_sweep_c13(rest),
         "prims-sweep-c09" => prims::cmd_sweep_c09(rest),
+        "e2e" => prims::cmd_e2e(rest),
         "sign" => sign::cmd_sign(rest),
         "rng-list" => rng::cmd_list(rest),
         "rng-trace" => rng::cmd_trace(rest),
